@@ -120,11 +120,18 @@ def replay_real(tier, rng, rep, cov, sites=None, nmod=None, prefix="c02m", cflag
     operands, ns = build_operands(tier, rng)
     tables = {b.name: ([], []) for b in builds if b.ok}
     gridset = {v for _, v, _ in operands if type(v) is int}
+    near = L.bnd_near_ints(P)
+    nearset = set(near)
+    # quick tier: the boundary float-constant sites are called on the neighbourhoods of all boundary constants, the smallest and
+    # the largest ints, all floats, bools and a few other objects instead of the whole grid
+    small = [(enc, val, seq) for enc, val, seq in operands
+             if (type(val) is int and (val in nearset or abs(val) <= 2 or abs(val) >= 2 ** 1023)) or type(val) in (float, bool)
+             or (isinstance(val, tuple) and val[1] in L.BND_OTHER)]
     for s in sites:
         if s["mod"] not in tables:
             continue
         cl, meta = tables[s["mod"]]
-        for enc, val, seq in operands:
+        for enc, val, seq in (small if (s.get("bnd") and tier == "quick") else operands):
             if isinstance(val, tuple) and val and val[0] == "py":
                 pv = eval(val[1], ns)
             else:
@@ -133,6 +140,15 @@ def replay_real(tier, rng, rep, cov, sites=None, nmod=None, prefix="c02m", cflag
                 continue
             cl.append([s["fn"], [enc]])
             meta.append((s, enc, pv))
+        if s.get("bnd"):
+            for v in near:
+                if v not in gridset:
+                    cl.append([s["fn"], [calls.ienc(v)]])
+                    meta.append((s, calls.ienc(v), v))
+            for f in L.bnd_floats(P):
+                if f not in L.FLOATS:
+                    cl.append([s["fn"], [calls.fenc(f)]])
+                    meta.append((s, calls.fenc(f), f))
         if s["ckind"] == "int":
             # operands derived from the site's constant: same low digits with extra high digits, neighbours, negation
             c = s["cv"][1]
@@ -154,9 +170,11 @@ def replay_real(tier, rng, rep, cov, sites=None, nmod=None, prefix="c02m", cflag
             parts = pool.map(_compare_module, names)
     else:
         parts = [_compare_module(n) for n in names]
-    stats = {"calls": 0, "decided_by_spec": 0, "generic": 0, "undecided": 0, "paths": {}, "nontrivial": set(), "samples": []}
+    stats = {"calls": 0, "decided_by_spec": 0, "generic": 0, "undecided": 0, "paths": {}, "nontrivial": set(), "samples": [], "collisions": {}}
     hazards_seen = {}
     for st, hz, drifts, dis in parts:
+        for k, v in st["collisions"].items():
+            stats["collisions"][k] = stats["collisions"].get(k, 0) + v
         for k in ("calls", "decided_by_spec", "generic", "undecided"):
             stats[k] += st[k]
         for k, v in st["paths"].items():
@@ -186,7 +204,7 @@ def _compare_module(name):
     cl, meta = tables[name]
     obs = results[name]
     rng = random.Random(len(cl))
-    stats = {"calls": 0, "decided_by_spec": 0, "generic": 0, "undecided": 0, "paths": {}, "nontrivial": set(), "samples": []}
+    stats = {"calls": 0, "decided_by_spec": 0, "generic": 0, "undecided": 0, "paths": {}, "nontrivial": set(), "samples": [], "collisions": {}}
     hazards_seen, drifts, dis = {}, [], []
     for (s, enc, pv), o in zip(meta, obs):
         stats["calls"] += 1
@@ -203,6 +221,9 @@ def _compare_module(name):
         c = L.canon(o) if not (isinstance(o, str) and (o.startswith("CRASH") or o == "TIMEOUT")) else "o:" + json.dumps(o)
         key = s["family"] + "/" + path
         stats["paths"][key] = stats["paths"].get(key, 0) + 1
+        if s["ckind"] == "float" and type(pv) is int and L.round_collision(P, s, xm):
+            ck = "%s/%s/%s" % (s["op"], s["order"], "neg" if s["cv"][1][1] < 0 else "pos")
+            stats["collisions"][ck] = stats["collisions"].get(ck, 0) + 1
         if sref == "g":
             stats["generic"] += 1
         elif sref == "u":
@@ -245,6 +266,12 @@ REQUIRED_PATHS = [   # vacuity guard on the model: every branch class of the tra
 ]
 
 
+# vacuity guard on the case class "rounding collision" (spec: RoundCollision): in the model and on real code every
+# comparison operator x operand order x sign must meet an int that is unequal to the float constant but converts to it
+REQUIRED_COLLISIONS = ["%s/%s/%s" % (op, order, sg) for op in ("Eq", "Ne") for order in ("ObjC", "CObj") for sg in ("pos", "neg")] + \
+                      ["%s/ObjC/pos" % op for op in ("Add", "Subtract", "TrueDivide", "Remainder")]
+
+
 def model_part(tier, rep, cov):
     """TLC on the scaled instance(s); the Python mirror is validated against every published cell"""
     cfgs = ["PyLongArith_q3"] if tier == "quick" else ["PyLongArith_t3", "PyLongArith_t4"]
@@ -256,7 +283,10 @@ def model_part(tier, rep, cov):
         declared |= set(cfg["DeclaredHazards"])
         if len(t.printed) != t.distinct or not t.printed:
             core.die("PyLongArith/%s: %d rows published for %d states" % (cfgn, len(t.printed), t.distinct))
-        ncells, diffs, paths, hazards = L.validate_rows(cfg, t.printed)
+        ncells, diffs, paths, hazards, coll = L.validate_rows(cfg, t.printed)
+        nocoll = [k for k in REQUIRED_COLLISIONS if not coll.get(k)]
+        if nocoll:
+            core.die("PyLongArith/%s: vacuous model, no rounding-collision cell for %s" % (cfgn, nocoll))
         for d in diffs:
             rep.spec_drift("PyLongArith.tla vs its Python mirror (%s)" % cfgn, d)
         missing = [p for p in REQUIRED_PATHS if not paths.get(p)]
@@ -271,8 +301,9 @@ def model_part(tier, rep, cov):
         cov["tlc"].append(dict(t.summary(), config="%s: SHIFT=%d LONG=%d LLONG=%d CBITS=%d MANT=%d EMAX=%d, |x|<=%d + bools/floats/other, %d sites" % (
             cfgn, cfg["SHIFT"], cfg["LONG"], cfg["LLONG"], cfg["CBITS"], cfg["MANT"], cfg["EMAX"], cfg["XMAX"],
             len({(r["op"], r["order"], r["c"]) for r in t.printed})),
-            cells=ncells, cells_per_path=paths, hazard_cells=hazards,
-            invariants=["Agree", "UndecidedIsGeneric", "NoUB", "TypeGuard", "BoolGuard"]))
+            cells=ncells, cells_per_path=paths, hazard_cells=hazards, rounding_collision_cells=coll,
+            float_constants=sorted({r["c"] for r in t.printed if r["ck"] == "float"}),
+            invariants=["Agree", "UndecidedIsGeneric", "NoUB", "TypeGuard", "BoolGuard", "ExactCompare"]))
     # the same model with one declared hazard removed: TLC must find that defect of the transcribed algorithm by itself
     for cfgn, missing in (("PyLongArith_strict_a", "PyFloatBinop/fb-rem-infdiv"), ("PyLongArith_strict_b", "PyNumberBinop/nb-xfloat-mul0")):
         ts = core.tlc("PyLongArith", cfg=cfgn, timeout=3000)
@@ -307,6 +338,11 @@ def run(tier, seed):
     sites, stats = replay_real(tier, rng, rep, cov)
     total_calls = stats["calls"]
     nontrivial = set(stats["nontrivial"])
+    nocoll = [k for k in REQUIRED_COLLISIONS if not stats["collisions"].get(k)]
+    if nocoll:
+        core.die("real replay: no rounding-collision call (int != float constant, (double) int == constant) for %s" % nocoll)
+    cov["real_rounding_collision_calls"] = dict(sorted(stats["collisions"].items()))
+    cov["boundary_float_constants"] = [repr(f) for f in L.bnd_floats(L.REAL)]
     configs = ["default"]
     if tier != "quick":
         # the same sites with the digit-level fast paths compiled out: the helpers take their portable branches
